@@ -65,7 +65,26 @@ def run(chk):
             refuse_blocks.add(b)
     chk.need(refuse_blocks, "validate(): no `return make_error(Error::kInvalidPhysId)`")
     can = {}
-    for i, a in _reads(val).items():
+    # reads made by unit-local helpers count where the helper is called (the decision may live in a bool helper)
+    fh = chk.facts("asmjit/x86/x86instapi.cpp", funcs=r"asmjit::x86::[A-Za-z_0-9:]+$")
+    helpers = {}
+    for g in cfg.load_functions(fh):
+        if g.file.endswith("x86instapi.cpp") and g.name != val.name:
+            helpers.setdefault(g.name, g)
+
+    def helper_reads(g, depth=0, seen=()):
+        out = set(_reads(g).values())
+        if depth < 2:
+            for ci, cx in g.calls(lambda x: x.get("callee") in helpers and x.get("callee") not in seen):
+                out |= helper_reads(helpers[cx["callee"]], depth + 1, seen + (g.name,))
+        return out
+    all_reads = dict(_reads(val))
+    via = {}
+    for ci, cx in val.calls(lambda x: x.get("callee") in helpers):
+        for a in helper_reads(helpers[cx["callee"]]):
+            via.setdefault(ci, set()).add(a)
+    items = list(all_reads.items()) + [(ci, a) for ci, aset in via.items() for a in sorted(aset)]
+    for i, a in items:
         j = i
         while j not in pos and j in par:
             j = par[j]
